@@ -20,6 +20,19 @@ SRC_TIME = "src/allmydata/util/time_format.py"
 SRC_ABBR = "src/allmydata/util/abbreviate.py"
 
 
+def _pin(node):
+    """Fingerprint of a function body with the *messages* of raised exceptions blanked
+    (the exception class stays): rewording an error text does not change behaviour
+    the model describes."""
+    import copy
+    node = copy.deepcopy(node)
+    for n in ast.walk(node):
+        if isinstance(n, ast.Raise) and isinstance(n.exc, ast.Call):
+            n.exc.args = []
+            n.exc.keywords = []
+    return dump_hash(node)
+
+
 def _fn(tree, name, kind=ast.FunctionDef):
     for st in tree.body:
         if isinstance(st, kind) and st.name == name:
@@ -278,12 +291,12 @@ def generate():
     sregex, sflags, stable = size(atree)
     sp = space(atree)
     pins = {
-        "ParseDurationUnitFormat": dump_hash(_fn(ttree, "ParseDurationUnitFormat", ast.ClassDef)),
-        "parse_duration": dump_hash(_fn(ttree, "parse_duration")),
-        "parse_date": dump_hash(_fn(ttree, "parse_date")),
-        "iso_utc_time_to_seconds": dump_hash(_fn(ttree, "iso_utc_time_to_seconds")),
-        "parse_abbreviated_size": dump_hash(_fn(atree, "parse_abbreviated_size")),
-        "abbreviate_space": dump_hash(_fn(atree, "abbreviate_space")),
+        "ParseDurationUnitFormat": _pin(_fn(ttree, "ParseDurationUnitFormat", ast.ClassDef)),
+        "parse_duration": _pin(_fn(ttree, "parse_duration")),
+        "parse_date": _pin(_fn(ttree, "parse_date")),
+        "iso_utc_time_to_seconds": _pin(_fn(ttree, "iso_utc_time_to_seconds")),
+        "parse_abbreviated_size": _pin(_fn(atree, "parse_abbreviated_size")),
+        "abbreviate_space": _pin(_fn(atree, "abbreviate_space")),
     }
     o = []
     o.append(HEADER % ("config.py", SRC_TIME + " and " + SRC_ABBR))
